@@ -13,7 +13,7 @@ def cases(draw, procs=False):
     faults = draw(st.sampled_from([None, None, None, {'setUp': 12}, {'tearDown': 15}]))
     spec = draw(gen.worlds(max_layers=4, min_layers=1 if procs else 0, hooks='layer', faults=faults,
                            nie=0, kinds=gen.ALL_KINDS, max_modules=2, depth=1, max_tests=4,
-                           weights_good=45, layer_decl=80, explicit_unit=True, max_children=3))
+                           weights_good=45, layer_decl=80, explicit_unit=True, max_children=3, sub_skip=True))
     for L in spec['layers']:
         if draw(st.integers(0, 99)) < 50:
             L['hooks'] = sorted(set(L['hooks']) | {'setUp', 'tearDown'}, key=gen.HOOKS.index)
@@ -263,7 +263,7 @@ def validate_outcome_table():
     from ..engine import HarnessError
     from .. import runtime
     for k in runtime.KINDS:
-        t = {'n': 'test_x', 'k': k, 'exc': 'ValueError', 'sub': [['pass'], ['fail'], ['error'], ['fail']]}
+        t = {'n': 'test_x', 'k': k, 'exc': 'ValueError', 'sub': [['pass'], ['fail'], ['skip'], ['error'], ['fail'], ['skip']]}
         node = {'t': 'c', 'name': 'TCsel', 'tests': [t]}
         runtime.set_spec({'mp': 'selftest_', 'layers': [], 'modules': []}, runtime.Tracer())
         cls, suite = runtime.build_case(node, 'selftest_mod', [])
